@@ -25,6 +25,16 @@ func newMemory(bs []Block) (*Memory, error) {
 		return &Memory{}, nil
 	}
 
+	// End of a block reaching the end of the address space is not
+	// representable, so such a block would appear to end before it begins.
+	for i, b := range bs {
+		if b.Len() > 0 && b.End() <= b.Begin() {
+			return nil, fmt.Errorf(
+				"block %d at 0x%x with %d bytes reaches the end of the address space",
+				i, b.Begin(), b.Len())
+		}
+	}
+
 	sort.Slice(bs, func(i, j int) bool { return bs[i].Begin() < bs[j].Begin() })
 	for i := range bs[1:] {
 		if bs[i+1].Begin() < bs[i].End() {
